@@ -126,7 +126,13 @@ def handle : Handler := fun s =>
         let (o1, t1) := qAgree 16384 ex.1 m.1 i.1
         let (o2, t2) := qAgree 16384 ex.2 m.2 i.2
         (o1 && o2, t1 || t2)
-      let segOk := mSeg.length == iSeg.length && segRes.all (·.1)
+      -- a map all of whose (quantised) nodes lie on the diagonal *is* the identity, whichever on-diagonal nodes it lists:
+      -- the code elides them when the f64 values of both sides are equal, the exact model when the rationals are
+      -- (they can differ by one part in 2⁵³ on non-dyadic grids); compared as the same map
+      let segOk := (mSeg.length == iSeg.length && segRes.all (·.1)) || (isIdentityMap mSeg && isIdentityMap iSeg) ||
+        -- a node listed twice (a value within one part in 2⁵³ of ±1 is, or is not, seen as the missing end node) is the
+        -- same map
+        (mSeg.eraseDups == iSeg.eraseDups)
       let segTie := segRes.any (·.2)
       let identOk := isIdentityMap iSeg == iIdent
       let fvarRes := [qAgree 65536 mn (fixed16 mn) fMin, qAgree 65536 df (fixed16 df) fDef, qAgree 65536 mx (fixed16 mx) fMax]
@@ -263,7 +269,12 @@ def handleE2E : Handler := fun s =>
     let mSegs := models.map segmentMap
     let mAvar : Option (List (List (Int × Int))) := if mSegs.any (fun m => !isIdentityMap m) then some mSegs else none
     let fvarCorr := mFvar == iFvar
-    let avarCorr := mAvar == iAvar
+    -- per axis: equal, or both the identity (see the pure stream: which on-diagonal nodes are listed is not observable)
+    let avarCorr := mAvar == iAvar || (match mAvar, iAvar with
+      | some m, some i => m.length == i.length && (m.zip i).all fun (a, b) => a == b || (isIdentityMap a && isIdentityMap b)
+      | some m, none => m.all isIdentityMap
+      | none, some i => i.all isIdentityMap
+      | none, none => true)
     let mInst : List (List Int) := insts.map fun loc =>
       (models.zip loc).map fun (ax, d) => fvarInstanceCoord ax (some (ax.conv.designToUserMap d))
     -- instance coordinates: f64 design→user then 16.16; allow one unit on a near tie
